@@ -12,6 +12,7 @@ import (
 	"strings"
 	"sync"
 	"testing"
+	"time"
 
 	"github.com/Comcast/sheens/core"
 	"pgregory.net/rapid"
@@ -363,4 +364,202 @@ func TestC16Service(t *testing.T) {
 	ev.Run(t, ev.Opts{Property: "C16", Name: "service", Quick: 1500, Thorough: 40000, ShrinkTime: "10s",
 		Rule: "mcrew Service over a real bolt file: sequences of add / remove / process / read-crew with the store going down (Storage.Close) and up at drawn positions and poison ids that make one write fail; after every op memory must equal the store and a failed op must leave the crew unchanged; concurrent variant: 2-6 clients issue op lists, afterwards memory == store and per machine the acknowledged walks chain without a lost update; non-trivial = a fault window containing >= 2 kinds of op, or >= 2 acknowledged requests on one machine from concurrent clients"},
 		genService, checkService)
+}
+
+// ---- a request held inside its spec lookup while others complete
+//
+// The spec of machine x is a named pipe: GetSpec blocks reading it until
+// the harness feeds it.  That puts a process request "in the middle"
+// for as long as the harness wants, without any scheduling luck, while
+// other clients remove and re-add the machine.  Whatever the service
+// does, the outcome must equal that of some order of the requests: in
+// particular a machine's state can only have been produced by its own
+// specification.
+
+func stampedCounterYAML(stamp string) string {
+	return fmt.Sprintf(`
+name: stamped-%s
+patternsyntax: json
+nodes:
+  start:
+    branching:
+      type: message
+      branches:
+      - pattern: |
+          {"inc":"?n"}
+        target: add
+  add:
+    action:
+      interpreter: ecmascript
+      source: |-
+        var bs = _.bindings;
+        var c = (typeof bs.count === 'number' ? bs.count : 0) + 1;
+        return {count: c, by: "%s"};
+    branching:
+      branches:
+      - target: seen%s
+  seen%s:
+    branching:
+      type: message
+      branches:
+      - pattern: |
+          {"inc":"?n"}
+        target: add
+`, stamp, stamp, stamp, stamp)
+}
+
+type GateCase struct {
+	During []SOpV `json:"during"` // requests issued while process(x) is held in its spec lookup
+	After  []SOpV `json:"after"`
+}
+
+func genGate(t *rapid.T) GateCase {
+	c := GateCase{}
+	mk := func(label string) SOpV {
+		k := rapid.SampledFrom([]string{"rem", "addB", "addB", "processOther", "read"}).Draw(t, label+".k")
+		return SOpV{Kind: k, Mid: rapid.SampledFrom([]string{"x", "x", "y"}).Draw(t, label+".mid")}
+	}
+	for i := rapid.IntRange(1, 4).Draw(t, "nd"); i > 0; i-- {
+		c.During = append(c.During, mk(fmt.Sprintf("d%d", i)))
+	}
+	for i := rapid.IntRange(0, 3).Draw(t, "na"); i > 0; i-- {
+		c.After = append(c.After, mk(fmt.Sprintf("a%d", i)))
+	}
+	return c
+}
+
+func checkGate(c GateCase) (v ev.Verdict) {
+	ctx, cancel := context.WithCancel(context.Background())
+	s, dir, err := verifNewService(ctx)
+	if err != nil {
+		cancel()
+		v.Failf("NewService: %v", err)
+		return
+	}
+	defer func() {
+		cancel()
+		s.store.Close(context.Background())
+		os.RemoveAll(dir)
+	}()
+	specs := filepath.Join(dir, "specs")
+	os.WriteFile(filepath.Join(specs, "stampedB.yaml"), []byte(stampedCounterYAML("B")), 0644)
+	fifo := filepath.Join(specs, "slowA.yaml")
+	if err := mkfifo(fifo); err != nil {
+		v.Skip, v.SkipReason = true, "mkfifo"
+		return
+	}
+	feed := func() {
+		f, err := os.OpenFile(fifo, os.O_WRONLY, 0)
+		if err != nil {
+			return
+		}
+		f.Write([]byte(stampedCounterYAML("A")))
+		f.Close()
+	}
+	if err := s.AddMachine(ctx, "slowA", "x", "", nil); err != nil {
+		v.Failf("AddMachine: %v", err)
+		return
+	}
+	specOf := map[string]string{"x": "A"}
+	pDone := make(chan struct{})
+	go func() {
+		defer close(pDone)
+		s.Process(ctx, map[string]interface{}{"to": "x", "inc": 1.0}, nil)
+	}()
+	time.Sleep(3 * time.Millisecond) // let it reach the spec lookup
+	do := func(op SOpV) {
+		switch op.Kind {
+		case "rem":
+			s.RemMachine(ctx, op.Mid)
+		case "addB":
+			s.AddMachine(ctx, "stampedB", op.Mid, "", nil)
+		case "processOther":
+			if op.Mid != "x" {
+				s.Process(ctx, map[string]interface{}{"to": op.Mid, "inc": 1.0}, nil)
+			}
+		case "read":
+			s.crew.Copy()
+		}
+	}
+	rDone := make(chan struct{})
+	go func() {
+		defer close(rDone)
+		for _, op := range c.During {
+			do(op)
+		}
+	}()
+	overlapped := false
+	select {
+	case <-rDone:
+		overlapped = true // the others completed while process(x) was held
+	case <-time.After(25 * time.Millisecond):
+	}
+	go feed()
+	select {
+	case <-pDone:
+	case <-time.After(5 * time.Second):
+		v.Skip, v.SkipReason = true, "process-did-not-return"
+		go feed()
+		return
+	}
+	select {
+	case <-rDone:
+	case <-time.After(5 * time.Second):
+		v.Skip, v.SkipReason = true, "clients-did-not-return"
+		return
+	}
+	for _, op := range c.After {
+		if op.Kind == "processOther" || op.Mid != "x" || op.Kind != "addB" {
+			do(op)
+		} else {
+			do(op)
+		}
+	}
+	_ = specOf
+	// memory == store, and every machine's state was produced by its
+	// own specification
+	mem := memView(s)
+	st, err := storeView(ctx, s, false)
+	if err != nil {
+		v.Failf("reading the store: %v", err)
+		return
+	}
+	if viewStr(mem) != viewStr(st) {
+		v.Failf("memory and store differ:\n memory %s\n store  %s", viewStr(mem), viewStr(st))
+		return
+	}
+	cp := s.crew.Copy()
+	for id, m := range cp.Machines {
+		want := "A"
+		if m.SpecSource != nil && m.SpecSource.Name == "stampedB" {
+			want = "B"
+		}
+		if by, ok := m.State.Bs["by"].(string); ok && by != want {
+			v.Failf("machine %q runs specification %s but its state %s %s was produced by specification %s: no order of the requests %s (issued while process(x) was held in its spec lookup) gives that", id, want, m.State.NodeName, jsongen.Canon(map[string]interface{}(m.State.Bs)), by, ev.JS(c.During))
+			return
+		}
+		if strings.HasPrefix(m.State.NodeName, "seen") && m.State.NodeName != "seen"+want {
+			v.Failf("machine %q runs specification %s but is at node %q of the other specification", id, want, m.State.NodeName)
+			return
+		}
+	}
+	touchesX := false
+	for _, op := range c.During {
+		if op.Mid == "x" && (op.Kind == "rem" || op.Kind == "addB") {
+			touchesX = true
+		}
+	}
+	v.NonTrivial = touchesX
+	if overlapped {
+		v.Class("others-completed-while-held")
+	} else {
+		v.Class("others-waited-for-the-held-request")
+	}
+	return
+}
+
+func TestC16Gate(t *testing.T) {
+	ev.Run(t, ev.Opts{Property: "C16", Name: "gate", Quick: 60, Thorough: 1500, ShrinkTime: "5s",
+		Rule: "a process request for machine x is held inside its specification lookup (the spec file is a named pipe the harness feeds) while generated remove / re-add (with another specification) / process / read requests are issued, then released; memory == store and every machine's state must have been produced by its own specification (the outcome of some order of the requests); non-trivial = a request issued meanwhile removes or re-adds x"},
+		genGate, checkGate)
 }
